@@ -1,6 +1,8 @@
 import LoraVerif.Props.C10
 import LoraVerif.Props.TieA.C10
 import LoraVerif.Props.C05Size
+import LoraVerif.Props.TieA.MacTopTx
+import LoraVerif.Props.TieA.MacTopTxRf
 /-!
 # C10 — the module `./check C10` builds: the property theorems (`Props/C10.lean`) together with the
 tie-A equalities between the hand model's constants and the items regenerated from the current
